@@ -66,7 +66,7 @@ CHECKS["C01"] = dict(
          "grammar (MoleculeSyntax.tla: prefix / connector / suffix absent, implicit or explicit; all terminal symbols; 1-2 objects; unit and end-group counts; "
          "mixture forms), for which TLC also checks that descriptor insertion is idempotent and that erasure keeps every structural lexeme. Every enumerated input, "
          "every descriptor form, the instance library, seeded archetypes and every string quoted in README / SI.md / tests are replayed through "
-         "parse -> print -> parse -> print, compared by object signature, by seeded generation, and by the extension-free form (= canonical with |...| erased, accepted again).",
+         "parse -> print -> parse -> print, compared by object signature, by seeded generation, and by the extension-free form (= canonical with |...| erased, accepted again). Shapes are concretised with ids none / 0 / 1 / 12 on every descriptor; multi-component systems over a grid of written specifiers (0 %, thirds, absolute 0, unspecified last component); a distribution is compared by its text AND by what it draws at a fixed quantile; token weights that print in exponent notation.",
     design_ref="DESIGN.md 4/C01",
     note="Trusted: TLC, the independent printer, RDKit for canonical fragments. Relational oracle: only what the statement demands (the text of the canonical form is never prescribed).",
     technique="TLA+ grammar specs enumerated exhaustively by TLC (model theorems checked); every enumerated input replayed into the implementation (round trips)",
